@@ -1,4 +1,185 @@
 /- Helper lemmas about `maxBy`, `minBy`, `descendBest`, `Err.depth`, `Err.closure` (C04). -/
 import JS.Errors
 namespace JS
+
+/-! ### `maxBy` / `minBy` return one of their arguments -/
+
+theorem maxBy_mem (key : Err → Int × Bool × Bool) (best : Err) (xs : List Err) :
+    maxBy key best xs ∈ best :: xs := by
+  induction xs generalizing best with
+  | nil => simp [maxBy]
+  | cons x xs ih =>
+    unfold maxBy
+    split
+    · have := ih x
+      simp only [List.mem_cons] at this ⊢
+      rcases this with h | h
+      · exact Or.inr (Or.inl h)
+      · exact Or.inr (Or.inr h)
+    · have := ih best
+      simp only [List.mem_cons] at this ⊢
+      rcases this with h | h
+      · exact Or.inl h
+      · exact Or.inr (Or.inr h)
+
+theorem minBy_mem (key : Err → Int × Bool × Bool) (best : Err) (xs : List Err) :
+    minBy key best xs ∈ best :: xs := by
+  induction xs generalizing best with
+  | nil => simp [minBy]
+  | cons x xs ih =>
+    unfold minBy
+    split
+    · have := ih x
+      simp only [List.mem_cons] at this ⊢
+      rcases this with h | h
+      · exact Or.inr (Or.inl h)
+      · exact Or.inr (Or.inr h)
+    · have := ih best
+      simp only [List.mem_cons] at this ⊢
+      rcases this with h | h
+      · exact Or.inl h
+      · exact Or.inr (Or.inr h)
+
+/-! ### `Err.depth` -/
+
+theorem Err.depth_eq (e : Err) : e.depth = 1 + Err.depthList e.context := by
+  cases e
+  simp [Err.depth, Err.context]
+
+theorem Err.depth_le_depthList {x : Err} {l : List Err} (h : x ∈ l) :
+    x.depth ≤ Err.depthList l := by
+  induction l with
+  | nil => cases h
+  | cons y ys ih =>
+    simp only [Err.depthList]
+    rcases List.mem_cons.1 h with h | h
+    · subst h; omega
+    · have := ih h; omega
+
+theorem Err.depth_lt_of_mem_context {x e : Err} (h : x ∈ e.context) : x.depth < e.depth := by
+  have := Err.depth_le_depthList h
+  rw [Err.depth_eq e]
+  omega
+
+/-! ### `descendBest` -/
+
+/-- enough fuel: the result has no context -/
+theorem descendBest_context (key : Err → Int × Bool × Bool) :
+    ∀ (n : Nat) (e : Err), e.depth ≤ n → (descendBest key n e).context = [] := by
+  intro n
+  induction n with
+  | zero =>
+    intro e h
+    rw [Err.depth_eq] at h
+    omega
+  | succ n ih =>
+    intro e h
+    unfold descendBest
+    split
+    · assumption
+    · rename_i c cs hc
+      apply ih
+      have hm : minBy key c cs ∈ e.context := by rw [hc]; exact minBy_mem key c cs
+      have := Err.depth_lt_of_mem_context hm
+      omega
+
+/-- on an error without context `descendBest` does nothing -/
+theorem descendBest_of_context_nil (key : Err → Int × Bool × Bool) (n : Nat) (e : Err)
+    (h : e.context = []) : descendBest key n e = e := by
+  cases n with
+  | zero => rfl
+  | succ n => unfold descendBest; rw [h]
+
+/-! ### the transitive context closure without paths -/
+
+mutual
+/-- `e` and everything below it in its context tree -/
+def Err.desc : Err → List Err
+  | .mk m i p sp ctx c => .mk m i p sp ctx c :: Err.descList ctx
+def Err.descList : List Err → List Err
+  | [] => []
+  | e :: es => Err.desc e ++ Err.descList es
+end
+
+mutual
+theorem Err.closure_map (pp psp : List PathElem) :
+    ∀ e : Err, (Err.closure pp psp e).map (·.2.2) = Err.desc e
+  | .mk m i p sp ctx c => by
+    simp [Err.closure, Err.desc, Err.closureList_map (pp ++ p) (psp ++ sp) ctx]
+theorem Err.closureList_map (pp psp : List PathElem) :
+    ∀ l : List Err, (Err.closureList pp psp l).map (·.2.2) = Err.descList l
+  | [] => by simp [Err.closureList, Err.descList]
+  | e :: es => by
+    simp [Err.closureList, Err.descList, Err.closure_map pp psp e, Err.closureList_map pp psp es]
+end
+
+theorem Err.desc_eq (e : Err) : Err.desc e = e :: Err.descList e.context := by
+  cases e
+  simp [Err.desc, Err.context]
+
+theorem Err.self_mem_desc (e : Err) : e ∈ Err.desc e := by
+  rw [Err.desc_eq]; exact List.mem_cons_self
+
+theorem Err.mem_descList {x c : Err} {l : List Err} (hc : c ∈ l) (hx : x ∈ Err.desc c) :
+    x ∈ Err.descList l := by
+  induction l with
+  | nil => cases hc
+  | cons y ys ih =>
+    simp only [Err.descList, List.mem_append]
+    rcases List.mem_cons.1 hc with h | h
+    · subst h; exact Or.inl hx
+    · exact Or.inr (ih h)
+
+/-- descendants of an element of the context are descendants -/
+theorem Err.mem_desc_of_mem_context {x c e : Err} (hc : c ∈ e.context) (hx : x ∈ Err.desc c) :
+    x ∈ Err.desc e := by
+  rw [Err.desc_eq e]
+  exact List.mem_cons_of_mem _ (Err.mem_descList hc hx)
+
+theorem descendBest_mem_desc (key : Err → Int × Bool × Bool) :
+    ∀ (n : Nat) (e : Err), descendBest key n e ∈ Err.desc e := by
+  intro n
+  induction n with
+  | zero => intro e; exact Err.self_mem_desc e
+  | succ n ih =>
+    intro e
+    unfold descendBest
+    split
+    · exact Err.self_mem_desc e
+    · rename_i c cs hc
+      have hm : minBy key c cs ∈ e.context := by rw [hc]; exact minBy_mem key c cs
+      exact Err.mem_desc_of_mem_context hm (ih _)
+
+/-! ### `bestMatch` -/
+
+theorem bestMatch_cons (weak strong : List Str) (e : Err) (rest : List Err) :
+    bestMatch weak strong (e :: rest) =
+      some (descendBest (relevance weak strong) (maxBy (relevance weak strong) e rest).depth
+        (maxBy (relevance weak strong) e rest)) := rfl
+
+theorem bestMatch_mem' (weak strong : List Str) (es : List Err) (b : Err)
+    (h : bestMatch weak strong es = some b) :
+    b.context = [] ∧ ∃ e ∈ es, b ∈ (Err.closure [] [] e).map (·.2.2) := by
+  cases es with
+  | nil => cases h
+  | cons e rest =>
+    rw [bestMatch_cons] at h
+    injection h with h
+    subst h
+    refine ⟨descendBest_context _ _ _ (Nat.le_refl _), maxBy (relevance weak strong) e rest,
+      maxBy_mem _ e rest, ?_⟩
+    rw [Err.closure_map]
+    exact descendBest_mem_desc _ _ _
+
+theorem bestMatch_none_iff' (weak strong : List Str) (es : List Err) :
+    bestMatch weak strong es = none ↔ es = [] := by
+  cases es with
+  | nil => exact ⟨fun _ => rfl, fun _ => rfl⟩
+  | cons e rest => rw [bestMatch_cons]; exact ⟨nofun, nofun⟩
+
+theorem bestMatch_flat' (weak strong : List Str) (e : Err) (es : List Err)
+    (h : ∀ x ∈ e :: es, x.context = []) :
+    bestMatch weak strong (e :: es) = some (maxBy (relevance weak strong) e es) := by
+  rw [bestMatch_cons, descendBest_of_context_nil _ _ _ (h _ (maxBy_mem _ e es))]
+
 end JS
